@@ -335,6 +335,8 @@ def build(tree, run, path=(), index=None):
         return build(c[i], run, path + (i + 1,), index)
     if k in ('new', 'same', 'copy', 'fail'):
         s = Leaf(run, k, path)
+    elif k == 'starq':
+        s = T.__star__()[T['nokey']]      # the argument spec fails on every element: all misses, result []
     elif k == 'skp':
         from glom import SKIP
         s = Val(SKIP)       # a step that answers SKIP
